@@ -115,7 +115,7 @@ impl Check for C03 {
     }
     fn cases(&self, tier: Tier) -> u32 {
         match tier {
-            Tier::Quick => 2400,
+            Tier::Quick => 4000,
             Tier::Thorough => 60_000,
         }
     }
@@ -328,7 +328,7 @@ impl Check for C11 {
     }
     fn cases(&self, tier: Tier) -> u32 {
         match tier {
-            Tier::Quick => 3000,
+            Tier::Quick => 6000,
             Tier::Thorough => 90_000,
         }
     }
@@ -498,7 +498,7 @@ impl Check for C12 {
     }
     fn cases(&self, tier: Tier) -> u32 {
         match tier {
-            Tier::Quick => 3000,
+            Tier::Quick => 6000,
             Tier::Thorough => 90_000,
         }
     }
